@@ -33,6 +33,46 @@ Proof.
     + apply IH. intro. apply Hx. right. assumption.
 Qed.
 
+Lemma filter_len_le {A} (f : A -> bool) l : (length (filter f l) <= length l)%nat.
+Proof. induction l as [|x l IH]; simpl; auto. destruct (f x); simpl; lia. Qed.
+
+Lemma NoDup_app_intro {A} (a b : list A) :
+  NoDup a -> NoDup b -> (forall x, In x a -> ~ In x b) -> NoDup (a ++ b).
+Proof.
+  intros Ha Hb Hd. induction Ha as [|x a Hx Ha IH]; simpl; auto.
+  constructor.
+  - intro Hin. apply in_app_or in Hin as [Hin|Hin]; [contradiction|].
+    apply (Hd x); [left; reflexivity|exact Hin].
+  - apply IH. intros y Hy. apply Hd. right. exact Hy.
+Qed.
+
+Lemma NoDup_app_r {A} (a b : list A) : NoDup (a ++ b) -> NoDup b.
+Proof. induction a as [|x a IH]; simpl; auto. intro H. inversion H; auto. Qed.
+
+Lemma flat_map_ext_in {A B} (f g : A -> list B) l :
+  (forall x, In x l -> f x = g x) -> flat_map f l = flat_map g l.
+Proof.
+  induction l as [|x l IH]; simpl; auto. intro H. rewrite H by auto. rewrite IH; auto.
+Qed.
+
+Lemma filter_ext_in' {A} (f g : A -> bool) l :
+  (forall x, In x l -> f x = g x) -> filter f l = filter g l.
+Proof.
+  induction l as [|x l IH]; simpl; auto. intro H. rewrite H by auto. rewrite IH; auto.
+Qed.
+
+Lemma nat_leb_total a b : Nat.leb a b = true \/ Nat.leb b a = true.
+Proof. destruct (Nat.leb a b) eqn:E; auto. right. apply Nat.leb_le. apply Nat.leb_gt in E. lia. Qed.
+
+Lemma nat_leb_trans a b c : Nat.leb a b = true -> Nat.leb b c = true -> Nat.leb a c = true.
+Proof. rewrite !Nat.leb_le. lia. Qed.
+
+Lemma filter_map_comm {A B} (g : A -> B) (p : B -> bool) l :
+  filter p (map g l) = map g (filter (fun x => p (g x)) l).
+Proof.
+  induction l as [|x l IH]; simpl; auto. destruct (p (g x)); simpl; rewrite IH; reflexivity.
+Qed.
+
 (* x occurs before y in l *)
 Definition before {A} (x y : A) (l : list A) : Prop :=
   exists l1 l2 l3, l = l1 ++ x :: l2 ++ y :: l3.
@@ -60,10 +100,18 @@ Qed.
 Ltac rsimpl := cbn [g_nameids g_autofootnotes g_footnotes g_autofootnote_refs g_footnote_refs
                      g_allrefs g_nrefs g_warn fst snd].
 
+Lemma before_map {A B} (g : A -> B) x y l : before x y l -> before (g x) (g y) (map g l).
+Proof.
+  intros [l1 [l2 [l3 ->]]]. exists (map g l1), (map g l2), (map g l3).
+  rewrite map_app. simpl. rewrite map_app. reflexivity.
+Qed.
+
 (* ================================================================ the model *)
 Section FootProofs.
   Variable isdigit : str -> bool.
   Variable int_of : str -> option N.
+  Variable footnotes_xform : fstate -> res fstate.
+  Hypothesis O_footnotes_xform : forall s, footnotes_xform s = docutils_footnotes s.
 
   Notation render_footnote_ref := (render_footnote_ref isdigit).
   Notation render_footnote_reference := (render_footnote_reference isdigit).
@@ -311,4 +359,611 @@ Section FootProofs.
       unfold all_defs, layout_foots in *. simpl.
       eapply step_ok_trans; eauto.
   Qed.
+
+  (* ---------------------------------------------------------------- SortFootnotes *)
+  Lemma wf_sort fs g : wf g -> wf (sort_footnotes fs g).
+  Proof.
+    intros [H1 H2 H3 H4 H5 H6 H7 H8]. unfold sort_footnotes.
+    destruct (negb fs); [constructor; auto|].
+    constructor; rsimpl; auto.
+    - eapply perm_trans; [|exact H2]. rewrite !map_app.
+      apply Permutation_app_tail. apply Permutation_map. apply Permutation_sym, isort_perm.
+    - eapply Permutation_Forall; [apply isort_perm|exact H3].
+  Qed.
+
+  Lemma sort_same fs g :
+    g_nameids (sort_footnotes fs g) = g_nameids g /\
+    g_footnotes (sort_footnotes fs g) = g_footnotes g /\
+    g_autofootnote_refs (sort_footnotes fs g) = g_autofootnote_refs g /\
+    g_footnote_refs (sort_footnotes fs g) = g_footnote_refs g /\
+    g_allrefs (sort_footnotes fs g) = g_allrefs g /\
+    g_warn (sort_footnotes fs g) = g_warn g /\
+    Permutation (g_autofootnotes g) (g_autofootnotes (sort_footnotes fs g)).
+  Proof.
+    unfold sort_footnotes. destruct (negb fs); rsimpl; repeat split; auto.
+    apply isort_perm.
+  Qed.
+
+  (* ---------------------------------------------------------------- docutils: numbering *)
+  Lemma next_label_ok ids : forall fuel n label num nxt,
+    next_label ids fuel n = Ok (label, num, nxt) ->
+    label = show num /\ n <= num /\ nxt = num + 1 /\ mem_str label ids = false.
+  Proof.
+    induction fuel as [|f IH]; intros n label num nxt H; simpl in H; [discriminate|].
+    destruct (mem_str (show n) ids) eqn:E.
+    - apply IH in H as [A [B [C D]]]. repeat split; auto. lia.
+    - inversion H; subst. repeat split; auto. lia.
+  Qed.
+
+  Lemma next_label_ext ids ids' : forall fuel n,
+    (forall k, n <= k -> mem_str (show k) ids = mem_str (show k) ids') ->
+    next_label ids fuel n = next_label ids' fuel n.
+  Proof.
+    induction fuel as [|f IH]; intros n H; simpl; auto.
+    rewrite <- (H n) by lia.
+    destruct (mem_str (show n) ids); auto.
+    apply IH. intros k Hk. apply H. lia.
+  Qed.
+
+  Definition remove_str (x : str) (l : list str) : list str :=
+    filter (fun s => negb (str_eqb s x)) l.
+
+  Lemma mem_remove_other x y l : y <> x -> mem_str y (remove_str x l) = mem_str y l.
+  Proof.
+    intro Hne. induction l as [|z l IH]; simpl; auto.
+    destruct (str_eqb z x) eqn:E; simpl.
+    - apply str_eqb_eq in E. subst z.
+      assert (Hf : str_eqb y x = false) by (apply str_eqb_neq; exact Hne).
+      rewrite Hf. simpl. exact IH.
+    - rewrite IH. reflexivity.
+  Qed.
+
+  Lemma remove_length x l : mem_str x l = true -> (length (remove_str x l) < length l)%nat.
+  Proof.
+    induction l as [|z l IH]; simpl; [discriminate|].
+    destruct (str_eqb x z) eqn:E; simpl.
+    - intros _. apply str_eqb_eq in E. subst z. rewrite str_eqb_refl. simpl.
+      pose proof (filter_len_le (fun s => negb (str_eqb s x)) l). unfold remove_str. lia.
+    - intro H. rewrite str_eqb_sym in E. rewrite E. simpl. apply IH in H. lia.
+  Qed.
+
+  Lemma next_label_total : forall fuel ids n,
+    (length ids < fuel)%nat -> exists r, next_label ids fuel n = Ok r.
+  Proof.
+    induction fuel as [|f IH]; intros ids n Hlen; [lia|]. simpl.
+    destruct (mem_str (show n) ids) eqn:E; [|eauto].
+    rewrite (next_label_ext ids (remove_str (show n) ids)).
+    - apply IH. apply remove_length in E. lia.
+    - intros k Hk. symmetry. apply mem_remove_other.
+      intro Heq. apply show_inj in Heq. lia.
+  Qed.
+
+  Definition numv (o : fout) : N := match fo_num o with Some k => k | None => 0 end.
+
+  Lemma number_footnotes_spec g : forall fns start outs,
+    number_footnotes g fns start = Ok outs ->
+    map fo_fn outs = fns /\
+    Forall (fun o => fo_num o = Some (numv o) /\ fo_display o = show (numv o) /\ start <= numv o /\
+                     mem_str (fo_display o) (g_nameids g) = false /\
+                     fo_backrefs o = map r_idx (refs_of (g_footnote_refs g) (f_label (fo_fn o)))) outs /\
+    StronglySorted (fun a b => numv a < numv b) outs.
+  Proof.
+    induction fns as [|f fns IH]; intros start outs H; cbn [number_footnotes] in H.
+    - inversion H; subst. repeat split; constructor.
+    - destruct (next_label (g_nameids g) (S (length (g_nameids g))) start) as [[[label num] nxt]|e] eqn:En;
+        cbn [bind] in H; [|discriminate].
+      destruct (number_footnotes g fns nxt) as [rest|e] eqn:Er; cbn [bind] in H; [|discriminate].
+      inversion H; subst outs. clear H.
+      apply next_label_ok in En as [A [B [C D]]]. subst label nxt.
+      destruct (IH _ _ Er) as [I1 [I2 I3]].
+      split; [simpl; rewrite I1; reflexivity|]. split.
+      + constructor.
+        * unfold numv. simpl. repeat split; auto.
+        * eapply Forall_impl; [|exact I2]. intros o [P1 [P2 [P3 [P4 P5]]]].
+          repeat split; auto. lia.
+      + constructor; auto.
+        eapply Forall_impl; [|exact I2]. intros o [P1 [P2 [P3 _]]].
+        unfold numv at 1. simpl. lia.
+  Qed.
+
+  Lemma number_footnotes_total g : forall fns start, exists outs, number_footnotes g fns start = Ok outs.
+  Proof.
+    induction fns as [|f fns IH]; intro start; cbn [number_footnotes]; [eauto|].
+    destruct (next_label_total (S (length (g_nameids g))) (g_nameids g) start) as [[[label num] nxt] En]; [lia|].
+    rewrite En. cbn [bind]. destruct (IH nxt) as [rest Er]. rewrite Er. cbn [bind]. eauto.
+  Qed.
+
+  (* ---------------------------------------------------------------- the pipeline *)
+  Lemma pipeline_order :
+    pipeline = [XSortFootnotes; XFootnotes; XUnreferencedFootnotesDetector; XCollectFootnotes; XResolveAnchorIds].
+  Proof. vm_compute. reflexivity. Qed.
+
+  Notation run := (run isdigit int_of footnotes_xform).
+
+  (* the stages of a run, spelled out *)
+  Definition stage_state (g0 g1 : regs) (ly : list ltop) (autos : list fout) : fstate :=
+    {| s_regs := g1; s_manual := resolve_footnotes g1; s_auto := autos; s_layout := ly;
+       s_warn := g_warn g0 ++ too_many g1 |}.
+
+  Lemma run_spec fs ft d r :
+    run fs ft d = Ok r ->
+    exists g0 ly autos,
+      render_doc regs0 d = (g0, ly) /\
+      let g1 := sort_footnotes fs g0 in
+      number_footnotes g1 (g_autofootnotes g1) 1 = Ok autos /\
+      let s4 := collect_footnotes int_of fs ft (unreferenced (stage_state g0 g1 ly autos)) in
+      r = {| x_refs := map (ref_out (resolve_footnotes g1 ++ autos)) (g_allrefs g1);
+             x_foots := resolve_footnotes g1 ++ autos;
+             x_layout := s_layout s4; x_warn := s_warn s4 |}.
+  Proof.
+    unfold Foot.run, run_with. rewrite pipeline_order.
+    destruct (render_doc regs0 d) as [g0 ly] eqn:Er.
+    cbn [apply_all apply_xform bind s_regs s_manual s_auto s_layout s_warn].
+    rewrite O_footnotes_xform.
+    unfold docutils_footnotes. cbn [s_regs s_manual s_auto s_layout s_warn].
+    destruct (number_footnotes (sort_footnotes fs g0) (g_autofootnotes (sort_footnotes fs g0)) 1)
+      as [autos|e] eqn:En; cbn [bind]; [|discriminate].
+    intro H. exists g0, ly, autos. split; [reflexivity|]. split; [exact En|].
+    inversion H. subst r. clear H.
+    assert (Hs : forall s, s_manual (collect_footnotes int_of fs ft s) = s_manual s /\
+                           s_auto (collect_footnotes int_of fs ft s) = s_auto s /\
+                           s_regs (collect_footnotes int_of fs ft s) = s_regs s /\
+                           s_warn (collect_footnotes int_of fs ft s) = s_warn s).
+    { intro s. unfold collect_footnotes. destruct (negb fs); simpl; auto. }
+    change {| s_regs := sort_footnotes fs g0; s_manual := resolve_footnotes (sort_footnotes fs g0);
+              s_auto := autos; s_layout := ly; s_warn := g_warn g0 ++ too_many (sort_footnotes fs g0) |}
+      with (stage_state g0 (sort_footnotes fs g0) ly autos).
+    destruct (Hs (unreferenced (stage_state g0 (sort_footnotes fs g0) ly autos))) as [A [B [C D]]].
+    rewrite A, B, C. reflexivity.
+  Qed.
+
+  Lemma run_total fs ft d : exists r, run fs ft d = Ok r.
+  Proof.
+    unfold Foot.run, run_with. rewrite pipeline_order.
+    destruct (render_doc regs0 d) as [g0 ly] eqn:Er.
+    cbn [apply_all apply_xform bind s_regs s_manual s_auto s_layout s_warn].
+    rewrite O_footnotes_xform.
+    unfold docutils_footnotes. cbn [s_regs].
+    destruct (number_footnotes_total (sort_footnotes fs g0) (g_autofootnotes (sort_footnotes fs g0)) 1) as [autos En].
+    rewrite En. cbn [bind]. eauto.
+  Qed.
+
+  (* ---------------------------------------------------------------- looking a footnote up by label *)
+  Definition lbl (f : fout) : str := f_label (fo_fn f).
+
+  Lemma find_fout_Some l fs f : find_fout l fs = Some f -> In f fs /\ lbl f = l.
+  Proof.
+    induction fs as [|x fs IH]; simpl; [discriminate|].
+    destruct (str_eqb l (f_label (fo_fn x))) eqn:E.
+    - intro H. inversion H; subst. apply str_eqb_eq in E. split; auto.
+    - intro H. apply IH in H as [A B]. auto.
+  Qed.
+
+  Lemma find_fout_None l fs : (forall f, In f fs -> lbl f <> l) -> find_fout l fs = None.
+  Proof.
+    induction fs as [|x fs IH]; simpl; auto. intro H.
+    destruct (str_eqb l (f_label (fo_fn x))) eqn:E.
+    - apply str_eqb_eq in E. exfalso. apply (H x); auto.
+    - apply IH. intros f Hf. apply H. auto.
+  Qed.
+
+  Lemma find_fout_In fs : NoDup (map lbl fs) -> forall f, In f fs -> find_fout (lbl f) fs = Some f.
+  Proof.
+    induction fs as [|x fs IH]; simpl; intros Hnd f Hf; [contradiction|].
+    inversion Hnd as [|? ? Hx Hnd']; subst.
+    destruct Hf as [->|Hf].
+    - unfold lbl. rewrite str_eqb_refl. reflexivity.
+    - destruct (str_eqb (lbl f) (f_label (fo_fn x))) eqn:E.
+      + apply str_eqb_eq in E. exfalso. apply Hx. fold (lbl x) in E. rewrite <- E.
+        apply in_map. exact Hf.
+      + apply IH; auto.
+  Qed.
+
+  (* ---------------------------------------------------------------- facts about one run *)
+  Record facts (fs : bool) (d : doc) (r : result) (g0 g1 : regs) (ly : list ltop) (autos : list fout) : Prop := {
+    fa_render : render_doc regs0 d = (g0, ly);
+    fa_g1 : g1 = sort_footnotes fs g0;
+    fa_wf0 : wf g0;
+    fa_wf1 : wf g1;
+    fa_step : step_ok regs0 g0 (all_defs d) (layout_foots ly);
+    fa_num : number_footnotes g1 (g_autofootnotes g1) 1 = Ok autos;
+    fa_foots : x_foots r = resolve_footnotes g1 ++ autos;
+    fa_refs : x_refs r = map (ref_out (resolve_footnotes g1 ++ autos)) (g_allrefs g1) }.
+
+  Lemma run_facts fs ft d r :
+    run fs ft d = Ok r ->
+    exists g0 g1 ly autos, facts fs d r g0 g1 ly autos /\
+      let s4 := collect_footnotes int_of fs ft (unreferenced (stage_state g0 g1 ly autos)) in
+      x_layout r = s_layout s4 /\ x_warn r = s_warn s4.
+  Proof.
+    intro H. apply run_spec in H. cbv zeta in H. destruct H as [g0 [ly [autos [Hr [Hn Hres]]]]].
+    exists g0, (sort_footnotes fs g0), ly, autos. cbv zeta.
+    pose proof (step_ok_doc d regs0) as Hs. rewrite Hr in Hs. simpl in Hs.
+    assert (Hw0 : wf g0) by (destruct Hs as [Hs _]; apply Hs, wf_regs0).
+    subst r. split; [|split; reflexivity].
+    constructor; auto. apply wf_sort. exact Hw0.
+  Qed.
+
+  Lemma foots_fns fs d r g0 g1 ly autos :
+    facts fs d r g0 g1 ly autos ->
+    map fo_fn (x_foots r) = g_footnotes g1 ++ g_autofootnotes g1.
+  Proof.
+    intros F. rewrite (fa_foots _ _ _ _ _ _ _ F), map_app.
+    destruct (number_footnotes_spec _ _ _ _ (fa_num _ _ _ _ _ _ _ F)) as [A _]. rewrite A.
+    unfold resolve_footnotes. rewrite map_map. simpl. rewrite map_id. reflexivity.
+  Qed.
+
+  Lemma foots_labels_perm fs d r g0 g1 ly autos :
+    facts fs d r g0 g1 ly autos -> Permutation (map lbl (x_foots r)) (g_nameids g1).
+  Proof.
+    intro F. pose proof (foots_fns _ _ _ _ _ _ _ F) as Hf.
+    unfold lbl. rewrite <- map_map, Hf.
+    eapply perm_trans; [|apply (wf_labels _ (fa_wf1 _ _ _ _ _ _ _ F))].
+    rewrite !map_app. apply Permutation_app_comm.
+  Qed.
+
+  Lemma foots_labels_nodup fs d r g0 g1 ly autos :
+    facts fs d r g0 g1 ly autos -> NoDup (map lbl (x_foots r)).
+  Proof.
+    intro F. eapply Permutation_NoDup.
+    - apply Permutation_sym. eapply foots_labels_perm; eauto.
+    - apply (wf_nodup _ (fa_wf1 _ _ _ _ _ _ _ F)).
+  Qed.
+
+  Lemma foots_backrefs fs d r g0 g1 ly autos :
+    facts fs d r g0 g1 ly autos ->
+    forall f, In f (x_foots r) ->
+      fo_backrefs f = map r_idx (filter (fun x => str_eqb (r_label x) (lbl f)) (g_allrefs g1)).
+  Proof.
+    intros F f Hf. rewrite <- (wf_frefs _ (fa_wf1 _ _ _ _ _ _ _ F)).
+    rewrite (fa_foots _ _ _ _ _ _ _ F) in Hf. apply in_app_or in Hf as [Hf|Hf].
+    - unfold resolve_footnotes in Hf. apply in_map_iff in Hf as [x [<- _]]. reflexivity.
+    - destruct (number_footnotes_spec _ _ _ _ (fa_num _ _ _ _ _ _ _ F)) as [_ [A _]].
+      rewrite Forall_forall in A. destruct (A f Hf) as [_ [_ [_ [_ B]]]]. exact B.
+  Qed.
+
+  (* ---------------------------------------------------------------- T1: references <-> definitions *)
+  Lemma refs_basic fs d r g0 g1 ly autos :
+    facts fs d r g0 g1 ly autos ->
+    map ro_idx (x_refs r) = map r_idx (g_allrefs g1) /\
+    map ro_label (x_refs r) = map r_label (g_allrefs g1).
+  Proof.
+    intro F. rewrite (fa_refs _ _ _ _ _ _ _ F), !map_map. split; apply map_ext; intro x;
+      unfold ref_out; destruct (find_fout (r_label x) (resolve_footnotes g1 ++ autos)); reflexivity.
+  Qed.
+
+  Lemma refs_point_to_defs fs ft d r :
+    run fs ft d = Ok r ->
+    (* the references are all there, in document order *)
+    map ro_idx (x_refs r) = seq 0 (length (x_refs r)) /\
+    (* a definition lists exactly its references *)
+    (forall f, In f (x_foots r) ->
+       fo_backrefs f = map ro_idx (filter (fun o => str_eqb (ro_label o) (lbl f)) (x_refs r))) /\
+    (* a reference whose label is defined points at that definition and shows its number *)
+    (forall o f, In o (x_refs r) -> In f (x_foots r) -> lbl f = ro_label o ->
+       ro_refid o = Some (lbl f) /\ ro_text o = Some (fo_display f) /\ In (ro_idx o) (fo_backrefs f)) /\
+    (* a reference without definition points nowhere *)
+    (forall o, In o (x_refs r) -> (forall f, In f (x_foots r) -> lbl f <> ro_label o) -> ro_refid o = None).
+  Proof.
+    intro H. apply run_facts in H as [g0 [g1 [ly [autos [F _]]]]].
+    destruct (refs_basic _ _ _ _ _ _ _ F) as [Hidx Hlab].
+    pose proof (wf_idx _ (fa_wf1 _ _ _ _ _ _ _ F)) as Hseq.
+    assert (Hback : forall f, In f (x_foots r) ->
+       fo_backrefs f = map ro_idx (filter (fun o => str_eqb (ro_label o) (lbl f)) (x_refs r))).
+    { intros f Hf. rewrite (foots_backrefs _ _ _ _ _ _ _ F f Hf).
+      rewrite (fa_refs _ _ _ _ _ _ _ F), filter_map_comm, map_map.
+      assert (E1 : forall x, ro_label (ref_out (resolve_footnotes g1 ++ autos) x) = r_label x).
+      { intro x. unfold ref_out. destruct (find_fout _ _); reflexivity. }
+      assert (E2 : forall x, ro_idx (ref_out (resolve_footnotes g1 ++ autos) x) = r_idx x).
+      { intro x. unfold ref_out. destruct (find_fout _ _); reflexivity. }
+      rewrite (filter_ext (fun x => str_eqb (ro_label (ref_out (resolve_footnotes g1 ++ autos) x)) (lbl f))
+                          (fun x => str_eqb (r_label x) (lbl f)))
+        by (intro x; rewrite E1; reflexivity).
+      apply map_ext. intro x. rewrite E2. reflexivity. }
+    split; [|split; [exact Hback|split]].
+    - rewrite Hidx, Hseq. f_equal.
+      rewrite (fa_refs _ _ _ _ _ _ _ F), map_length.
+      rewrite <- (map_length r_idx (g_allrefs g1)), Hseq, seq_length. reflexivity.
+    - intros o f Ho Hf Hl.
+      rewrite (fa_refs _ _ _ _ _ _ _ F) in Ho. apply in_map_iff in Ho as [x [<- Hx]].
+      assert (Hfind : find_fout (r_label x) (resolve_footnotes g1 ++ autos) = Some f).
+      { rewrite <- (fa_foots _ _ _ _ _ _ _ F).
+        replace (r_label x) with (lbl f).
+        - apply find_fout_In; auto. eapply foots_labels_nodup; eauto.
+        - rewrite Hl. unfold ref_out. destruct (find_fout _ _); reflexivity. }
+      unfold ref_out at 1 2 3. rewrite Hfind. simpl. repeat split; auto.
+      rewrite (foots_backrefs _ _ _ _ _ _ _ F f Hf).
+      apply in_map. apply filter_In. split; auto.
+      unfold ref_out in Hl. rewrite Hfind in Hl. simpl in Hl. rewrite Hl. apply str_eqb_refl.
+    - intros o Ho Hno.
+      rewrite (fa_refs _ _ _ _ _ _ _ F) in Ho. apply in_map_iff in Ho as [x [<- Hx]].
+      assert (Hl : ro_label (ref_out (resolve_footnotes g1 ++ autos) x) = r_label x).
+      { unfold ref_out. destruct (find_fout _ _); reflexivity. }
+      assert (Hfind : find_fout (r_label x) (resolve_footnotes g1 ++ autos) = None).
+      { apply find_fout_None. intros f Hf. rewrite <- (fa_foots _ _ _ _ _ _ _ F) in Hf.
+        rewrite <- Hl. apply Hno. exact Hf. }
+      unfold ref_out. rewrite Hfind. reflexivity.
+  Qed.
+
+  (* ---------------------------------------------------------------- T2: labels pairwise distinct *)
+  Lemma sorted_lt_nodup (l : list fout) :
+    StronglySorted (fun a b => numv a < numv b) l -> NoDup (map numv l).
+  Proof.
+    induction 1 as [|x l Hs IH Hx]; simpl; constructor; auto.
+    intro Hin. apply in_map_iff in Hin as [y [Hy Hin]].
+    rewrite Forall_forall in Hx. specialize (Hx y Hin). lia.
+  Qed.
+
+  Lemma labels_distinct fs ft d r : run fs ft d = Ok r -> NoDup (map fo_display (x_foots r)).
+  Proof.
+    intro H. apply run_facts in H as [g0 [g1 [ly [autos [F _]]]]].
+    rewrite (fa_foots _ _ _ _ _ _ _ F), map_app.
+    destruct (number_footnotes_spec _ _ _ _ (fa_num _ _ _ _ _ _ _ F)) as [A [B C]].
+    pose proof (fa_wf1 _ _ _ _ _ _ _ F) as W.
+    assert (Hnd : NoDup (map f_label (g_autofootnotes g1 ++ g_footnotes g1))).
+    { eapply Permutation_NoDup; [apply Permutation_sym, (wf_labels _ W)|apply (wf_nodup _ W)]. }
+    rewrite map_app in Hnd.
+    apply NoDup_app_intro.
+    - unfold resolve_footnotes. rewrite map_map. simpl. apply NoDup_app_r in Hnd. exact Hnd.
+    - assert (E : map fo_display autos = map show (map numv autos)).
+      { rewrite map_map. apply map_ext_in. intros o Ho. rewrite Forall_forall in B.
+        destruct (B o Ho) as [_ [P _]]. exact P. }
+      rewrite E. apply FinFun.Injective_map_NoDup.
+      + intros a b Hab. apply show_inj. exact Hab.
+      + apply sorted_lt_nodup. exact C.
+    - intros x Hx Hx2.
+      unfold resolve_footnotes in Hx. rewrite map_map in Hx. simpl in Hx.
+      apply in_map_iff in Hx2 as [o [Ho Hin]]. rewrite Forall_forall in B.
+      destruct (B o Hin) as [_ [_ [_ [Hm _]]]]. rewrite Ho in Hm.
+      apply mem_str_false_notin in Hm. apply Hm.
+      eapply Permutation_in; [apply (wf_labels _ W)|]. rewrite map_app.
+      apply in_or_app. right. exact Hx.
+  Qed.
+
+  (* ---------------------------------------------------------------- T3: order of the automatic numbers *)
+  Definition auto_ref_labels (r : result) : list str :=
+    filter (fun l => negb (isdigit l)) (map ro_label (x_refs r)).
+
+  Lemma auto_ref_labels_eq fs d r g0 g1 ly autos :
+    facts fs d r g0 g1 ly autos ->
+    auto_ref_labels r = map r_label (g_autofootnote_refs g0).
+  Proof.
+    intro F. unfold auto_ref_labels.
+    destruct (refs_basic _ _ _ _ _ _ _ F) as [_ Hl]. rewrite Hl.
+    destruct (sort_same fs g0) as [_ [_ [_ [_ [Ha _]]]]].
+    rewrite (fa_g1 _ _ _ _ _ _ _ F), Ha.
+    rewrite (wf_arefs _ (fa_wf0 _ _ _ _ _ _ _ F)), filter_map_comm. f_equal.
+    apply filter_ext_in'. intros x Hx.
+    pose proof (wf_rauto _ (fa_wf0 _ _ _ _ _ _ _ F)) as W. rewrite Forall_forall in W.
+    rewrite (W x Hx). reflexivity.
+  Qed.
+
+  Lemma auto_order_sorted ft d r :
+    run true ft d = Ok r ->
+    forall fa fb ka kb i j,
+      In fa (x_foots r) -> In fb (x_foots r) ->
+      fo_num fa = Some ka -> fo_num fb = Some kb ->
+      index_of (lbl fa) (auto_ref_labels r) = Some i ->
+      index_of (lbl fb) (auto_ref_labels r) = Some j ->
+      (i < j)%nat -> ka < kb.
+  Proof.
+    intro H. apply run_facts in H as [g0 [g1 [ly [autos [F _]]]]].
+    intros fa fb ka kb i j Ha Hb Hka Hkb Hi Hj Hij.
+    rewrite (auto_ref_labels_eq _ _ _ _ _ _ _ F) in Hi, Hj.
+    destruct (number_footnotes_spec _ _ _ _ (fa_num _ _ _ _ _ _ _ F)) as [A [B C]].
+    assert (Hin : forall f k, In f (x_foots r) -> fo_num f = Some k -> In f autos /\ numv f = k).
+    { intros f k Hf Hk. rewrite (fa_foots _ _ _ _ _ _ _ F) in Hf. apply in_app_or in Hf as [Hf|Hf].
+      - unfold resolve_footnotes in Hf. apply in_map_iff in Hf as [x [<- _]]. discriminate.
+      - split; auto. unfold numv. rewrite Hk. reflexivity. }
+    destruct (Hin fa ka Ha Hka) as [Ha' Hna]. destruct (Hin fb kb Hb Hkb) as [Hb' Hnb].
+    assert (Hne : fa <> fb).
+    { intro. subst fb. rewrite Hi in Hj. inversion Hj. lia. }
+    assert (Hg1 : g_autofootnotes g1
+                  = isort (sort_key (map r_label (g_autofootnote_refs g0))) Nat.leb (g_autofootnotes g0)).
+    { rewrite (fa_g1 _ _ _ _ _ _ _ F). reflexivity. }
+    destruct (before_or fa fb autos Ha' Hb' Hne) as [Hbf|Hbf].
+    - pose proof (sorted_before _ _ _ _ C Hbf) as Hlt. simpl in Hlt. lia.
+    - exfalso. apply (before_map fo_fn) in Hbf. rewrite A, Hg1 in Hbf.
+      pose proof (isort_sorted (sort_key (map r_label (g_autofootnote_refs g0))) Nat.leb
+                               nat_leb_total nat_leb_trans (g_autofootnotes g0)) as Hs.
+      pose proof (sorted_before _ _ _ _ Hs Hbf) as Hle. unfold kle, sort_key in Hle.
+      fold (lbl fa) in Hle. fold (lbl fb) in Hle. rewrite Hi, Hj in Hle.
+      apply Nat.leb_le in Hle. lia.
+  Qed.
+
+  (* ---------------------------------------------------------------- T4: collecting / staying put *)
+  Lemma ckey_leb_total a b : ckey_leb a b = true \/ ckey_leb b a = true.
+  Proof.
+    destruct a as [x|x], b as [y|y]; simpl; auto.
+    - destruct (x <=? y) eqn:E; auto. right. apply N.leb_le. apply N.leb_gt in E. lia.
+    - apply str_leb_total.
+  Qed.
+
+  Lemma ckey_leb_trans a b c : ckey_leb a b = true -> ckey_leb b c = true -> ckey_leb a c = true.
+  Proof.
+    destruct a as [x|x], b as [y|y], c as [z|z]; simpl; auto; try discriminate.
+    - rewrite !N.leb_le. lia.
+    - apply str_leb_trans.
+  Qed.
+
+  Lemma strip_inner_no_foot its : flat_map lin_foots (filter (fun i => negb (is_ifoot i)) its) = [].
+  Proof. induction its as [|[| |l] its IH]; simpl; auto. Qed.
+
+  Lemma strip_no_foot ly : layout_foots (flat_map strip_top ly) = [].
+  Proof.
+    unfold layout_foots. induction ly as [|n ly IH]; simpl; auto.
+    rewrite flat_map_app, IH, app_nil_r.
+    destruct n; simpl; auto. rewrite strip_inner_no_foot. reflexivity.
+  Qed.
+
+  Lemma layout_foots_LFoot (l : list fout) :
+    layout_foots (map (fun f => LFoot (f_label (fo_fn f))) l) = map lbl l.
+  Proof. unfold layout_foots. induction l as [|x l IH]; simpl; auto. rewrite IH. reflexivity. Qed.
+
+  Definition transition_for (ft : bool) (rendered : list ltop) (foots : list fout) : list ltop :=
+    match foots with
+    | [] => []
+    | _ => if ft && negb (forallb is_foot rendered) then [LTrans] else []
+    end.
+
+  Lemma collect_layout ft d r :
+    run true ft d = Ok r ->
+    x_layout r = flat_map strip_top (snd (render_doc regs0 d))
+                 ++ transition_for ft (snd (render_doc regs0 d)) (x_foots r)
+                 ++ map (fun f => LFoot (f_label (fo_fn f))) (isort (collect_key int_of) ckey_leb (x_foots r)).
+  Proof.
+    intro H. apply run_facts in H as [g0 [g1 [ly [autos [F [Hl _]]]]]].
+    rewrite Hl, (fa_render _ _ _ _ _ _ _ F), (fa_foots _ _ _ _ _ _ _ F). simpl.
+    unfold collect_footnotes, transition_for. simpl.
+    rewrite flat_map_app, <- app_assoc. f_equal. f_equal.
+    destruct (resolve_footnotes g1 ++ autos); simpl; auto.
+    destruct (ft && negb (forallb is_foot ly)); reflexivity.
+  Qed.
+
+  Lemma collect_sorted ft d r :
+    run true ft d = Ok r ->
+    let sorted := isort (collect_key int_of) ckey_leb (x_foots r) in
+    layout_foots (flat_map strip_top (snd (render_doc regs0 d))) = [] /\
+    Permutation sorted (x_foots r) /\
+    StronglySorted (fun a b => ckey_leb (collect_key int_of a) (collect_key int_of b) = true) sorted.
+  Proof.
+    intros _ sorted. split; [apply strip_no_foot|]. split.
+    - apply Permutation_sym, isort_perm.
+    - apply (isort_sorted (collect_key int_of) ckey_leb ckey_leb_total ckey_leb_trans).
+  Qed.
+
+  Lemma stay_put ft d r :
+    run false ft d = Ok r ->
+    x_layout r = snd (render_doc regs0 d) /\
+    layout_foots (x_layout r) = map fst (firsts [] (all_defs d)).
+  Proof.
+    intro H. apply run_facts in H as [g0 [g1 [ly [autos [F [Hl _]]]]]].
+    rewrite Hl, (fa_render _ _ _ _ _ _ _ F). simpl. split; auto.
+    destruct (fa_step _ _ _ _ _ _ _ F) as [_ [_ [_ [_ E]]]]. exact E.
+  Qed.
+
+  (* ---------------------------------------------------------------- T5: warnings *)
+  Definition unref_warn (f : fout) : list warn :=
+    match fo_backrefs f with [] => [WUnref (lbl f) (f_auto (fo_fn f))] | _ => [] end.
+
+  Lemma warnings_exact fs ft d r :
+    run fs ft d = Ok r ->
+    exists tm, x_warn r = map WDup (dupls [] (all_defs d)) ++ tm ++ flat_map unref_warn (x_foots r)
+               /\ (tm = [] \/ tm = [WTooMany]).
+  Proof.
+    intro H. apply run_facts in H as [g0 [g1 [ly [autos [F [_ Hw]]]]]].
+    exists (too_many g1). split.
+    - rewrite Hw.
+      assert (Hc : forall s, s_warn (collect_footnotes int_of fs ft s) = s_warn s).
+      { intro s. unfold collect_footnotes. destruct (negb fs); reflexivity. }
+      rewrite Hc. unfold unreferenced, stage_state. simpl.
+      destruct (fa_step _ _ _ _ _ _ _ F) as [_ [_ [_ [E _]]]]. simpl in E. rewrite E.
+      rewrite <- app_assoc. f_equal. f_equal.
+      rewrite (fa_foots _ _ _ _ _ _ _ F), flat_map_app. f_equal.
+      + apply flat_map_ext_in. intros f Hf. unfold unref_warn, lbl.
+        unfold resolve_footnotes in Hf. apply in_map_iff in Hf as [x [<- Hx]]. simpl.
+        pose proof (wf_manual _ (fa_wf1 _ _ _ _ _ _ _ F)) as W. rewrite Forall_forall in W.
+        destruct (W x Hx) as [Wa _]. rewrite Wa. reflexivity.
+      + apply flat_map_ext_in. intros f Hf. unfold unref_warn, lbl.
+        destruct (number_footnotes_spec _ _ _ _ (fa_num _ _ _ _ _ _ _ F)) as [A _].
+        assert (Hx : In (fo_fn f) (g_autofootnotes g1)) by (rewrite <- A; apply in_map; exact Hf).
+        pose proof (wf_auto _ (fa_wf1 _ _ _ _ _ _ _ F)) as W. rewrite Forall_forall in W.
+        destruct (W _ Hx) as [Wa _]. rewrite Wa. reflexivity.
+    - unfold too_many. destruct (existsb _ _); auto.
+  Qed.
+
+  (* a duplicate definition only leaves its warning *)
+  Lemma dup_def_only_warns g l b :
+    mem_str l (g_nameids g) = true ->
+    render_footnote_reference g l b =
+    ({| g_nameids := g_nameids g; g_autofootnotes := g_autofootnotes g; g_footnotes := g_footnotes g;
+        g_autofootnote_refs := g_autofootnote_refs g; g_footnote_refs := g_footnote_refs g;
+        g_allrefs := g_allrefs g; g_nrefs := g_nrefs g; g_warn := g_warn g ++ [WDup l] |}, false).
+  Proof. intro H. unfold Foot.render_footnote_reference. rewrite H. reflexivity. Qed.
+
+  (* ---------------------------------------------------------------- T6: no definition text is lost *)
+  Lemma no_text_lost fs ft d r :
+    run fs ft d = Ok r ->
+    Permutation (map (fun f => (lbl f, f_body (fo_fn f))) (x_foots r)) (firsts [] (all_defs d)) /\
+    Permutation (layout_foots (x_layout r)) (map fst (firsts [] (all_defs d))).
+  Proof.
+    intro H. pose proof H as H0. apply run_facts in H as [g0 [g1 [ly [autos [F [Hl _]]]]]].
+    assert (P1 : Permutation (map (fun f => (lbl f, f_body (fo_fn f))) (x_foots r)) (firsts [] (all_defs d))).
+    { replace (map (fun f => (lbl f, f_body (fo_fn f))) (x_foots r))
+        with (map (fun x => (f_label x, f_body x)) (map fo_fn (x_foots r)))
+        by (rewrite map_map; reflexivity).
+      rewrite (foots_fns _ _ _ _ _ _ _ F).
+      destruct (sort_same fs g0) as [_ [Hm [_ [_ [_ [_ Hp]]]]]].
+      rewrite (fa_g1 _ _ _ _ _ _ _ F), Hm.
+      destruct (fa_step _ _ _ _ _ _ _ F) as [_ [_ [E [_ _]]]]. simpl in E.
+      eapply perm_trans; [|exact E]. unfold pairs. rewrite !map_app.
+      eapply perm_trans; [apply Permutation_app_comm|].
+      apply Permutation_app_tail. apply Permutation_map. apply Permutation_sym. exact Hp. }
+    split; [exact P1|].
+    destruct fs.
+    - rewrite (collect_layout _ _ _ H0). unfold layout_foots. rewrite !flat_map_app.
+      fold (layout_foots (flat_map strip_top (snd (render_doc regs0 d)))).
+      rewrite strip_no_foot. simpl.
+      assert (Et : flat_map ltop_foots (transition_for ft (snd (render_doc regs0 d)) (x_foots r)) = []).
+      { unfold transition_for. destruct (x_foots r); auto.
+        destruct (ft && negb (forallb is_foot (snd (render_doc regs0 d)))); reflexivity. }
+      rewrite Et. simpl.
+      fold (layout_foots (map (fun f => LFoot (f_label (fo_fn f))) (isort (collect_key int_of) ckey_leb (x_foots r)))).
+      rewrite layout_foots_LFoot.
+      eapply perm_trans; [apply Permutation_map, Permutation_sym, isort_perm|].
+      replace (map lbl (x_foots r)) with (map fst (map (fun f => (lbl f, f_body (fo_fn f))) (x_foots r)))
+        by (rewrite map_map; reflexivity).
+      apply Permutation_map. exact P1.
+    - destruct (stay_put _ _ _ H0) as [_ E]. rewrite E. apply Permutation_refl.
+  Qed.
+
+  (* numeric labels keep their number *)
+  Lemma manual_keeps_number fs ft d r :
+    run fs ft d = Ok r ->
+    forall f, In f (x_foots r) -> fo_num f = None -> fo_display f = lbl f /\ isdigit (lbl f) = true.
+  Proof.
+    intro H. apply run_facts in H as [g0 [g1 [ly [autos [F _]]]]].
+    intros f Hf Hn. rewrite (fa_foots _ _ _ _ _ _ _ F) in Hf. apply in_app_or in Hf as [Hf|Hf].
+    - unfold resolve_footnotes in Hf. apply in_map_iff in Hf as [x [<- Hx]]. simpl. split; auto.
+      pose proof (wf_manual _ (fa_wf1 _ _ _ _ _ _ _ F)) as W. rewrite Forall_forall in W.
+      destruct (W x Hx) as [_ Wd]. exact Wd.
+    - destruct (number_footnotes_spec _ _ _ _ (fa_num _ _ _ _ _ _ _ F)) as [_ [B _]].
+      rewrite Forall_forall in B. destruct (B f Hf) as [P _]. congruence.
+  Qed.
 End FootProofs.
+
+(* ================================================================ closed statements *)
+
+Lemma auto_order_refuted :
+  exists isdigit int_of ft d r fa fb ka kb i j,
+    run isdigit int_of docutils_footnotes false ft d = Ok r /\
+    In fa (x_foots r) /\ In fb (x_foots r) /\
+    fo_num fa = Some ka /\ fo_num fb = Some kb /\
+    index_of (lbl fa) (auto_ref_labels isdigit r) = Some i /\
+    index_of (lbl fb) (auto_ref_labels isdigit r) = Some j /\
+    (i < j)%nat /\ kb < ka.
+Proof.
+  exists (fun _ => false), (fun _ => None), true,
+         [TRefs [[98]]; TRefs [[97]]; TDef [97] 1 []; TDef [98] 2 []].
+  eexists. eexists. eexists. eexists. eexists. eexists. eexists.
+  split; [vm_compute; reflexivity|].
+  split; [right; left; reflexivity|].
+  split; [left; reflexivity|].
+  split; [reflexivity|]. split; [reflexivity|].
+  split; [vm_compute; reflexivity|]. split; [vm_compute; reflexivity|].
+  split; [lia|reflexivity].
+Qed.
+
+Lemma transform_order :
+  (priority XSortFootnotes < priority XFootnotes)%Z /\
+  (priority XFootnotes < priority XUnreferencedFootnotesDetector)%Z /\
+  (priority XUnreferencedFootnotesDetector < priority XCollectFootnotes)%Z /\
+  In XSortFootnotes docutils_parser_transforms /\ In XCollectFootnotes docutils_parser_transforms /\
+  In XUnreferencedFootnotesDetector docutils_parser_transforms /\
+  In XSortFootnotes sphinx_parser_transforms /\ In XCollectFootnotes sphinx_parser_transforms /\
+  pipeline = [XSortFootnotes; XFootnotes; XUnreferencedFootnotesDetector; XCollectFootnotes; XResolveAnchorIds].
+Proof.
+  split; [vm_compute; reflexivity|]. split; [vm_compute; reflexivity|]. split; [vm_compute; reflexivity|].
+  split; [simpl; tauto|]. split; [simpl; tauto|]. split; [simpl; tauto|].
+  split; [simpl; tauto|]. split; [simpl; tauto|]. apply pipeline_order.
+Qed.
